@@ -129,6 +129,16 @@ func VerifC03Instance() {
 		vstub.Fail("C03 Marshal failed")
 		return
 	}
+	// optionally the non-writer first announces a COPY of the writer's genuine entry
+	// whose claimed address is the rogue entry's: refused (wrong address), and whatever
+	// verdict the controller computed on the way must not stick to that address
+	if vstub.NdChoice("spoofed-address-first", 2) == 1 {
+		sp := priv.OpLog().Heads().Slice()[0].Copy()
+		sp.SetHash(rogue.GetHash())
+		_ = priv.Sync(ctx, []ipfslog.Entry{sp})
+		vstub.WaitIdle()
+		vstub.Cover("spoofed-address-first")
+	}
 	switch vstub.NdChoice("route", 3) {
 	case 0:
 		_ = priv.Sync(ctx, []ipfslog.Entry{rogue.Copy()})
